@@ -41,6 +41,8 @@ FIXES = [
   "RrdpServer::find_deltas_truncate_age compared `keep == max_nr - 1`; once the minimum rules had kept that many deltas or more, the number of deltas was no longer bounded by rrdp_delta_files_max_nr (6 deltas with max_nr = 1)"),
  ("do not finish a child's running parent synchronisation from another thread", "C18", "daemon_exit",
   "a parent-side child update (API thread) ran the post-save listener with schedule_and_finish_existing for the child's SyncParent task while the scheduler thread was executing exactly that task; the scheduler could then not finish/reschedule it ('failed to move running/... to pending/...') and called process::exit"),
+ ("refuse a publisher whose directory overlaps with that of another publisher", "C10", "overlapping_publisher_accepted",
+  "(also C11) publishers 'a' and 'a/b' (handles may contain '/') have nested base URIs: 'a' could publish at URIs of 'a/b'; the RRDP snapshot then listed the same URI twice, clients could not apply the deltas and the rsync files overwrote each other"),
 ]
 
 log = subprocess.run(["git", "-C", "/repo", "log", "--format=%h %s", "--grep=^fix:"],
